@@ -340,17 +340,18 @@ def api_c_main(n1, n2, n3, is_file):
     return {"dumped": made, "error": err, "reproduced": made != ["a_schema.json", "b_schema.json", "c_schema.json"] or err is not None}
 
 
-def c_dump_file(kind: int, name: str) -> bool:
+def c_dump_file(kind: int, nm: int) -> bool:
     """
     dump_data_to_file writes exactly the JSON encoding of what it is given - a list (flat
     result), a dict (group_by_type result) or a single table dict - into <dir>/<name>_schema.json.
 
     pre: 0 <= kind <= 2
-    pre: 1 <= len(name) <= 2 and "/" not in name
+    pre: 0 <= nm <= 2
     post: _
     """
     import json
     import simple_ddl_parser.output.core as core
+    name = ["x", "a.b", "in put"][nm]
     written = {}
 
     class W:
@@ -382,5 +383,5 @@ def c_dump_file(kind: int, name: str) -> bool:
     return list(written) == ["dir/" + name + "_schema.json"] and json.loads(written["dir/" + name + "_schema.json"]) == data
 
 
-def api_c_dump_file(kind, name):
+def api_c_dump_file(kind, nm):
     return api_c_dump(1, True, "ab", "sql", True, kind == 1)
